@@ -36,6 +36,11 @@ def wrappers():
     return sorted(names)
 
 
+def name_is_pure_ic(sig):
+    """the *_pure_IC entry points document `initial_infecteds` as "list or set" (required positional): no bare-node spelling promised"""
+    return sig.parameters['initial_infecteds'].default is inspect._empty
+
+
 def modes(sig, G):
     nodes = list(G.nodes())
     out = []
@@ -49,6 +54,9 @@ def modes(sig, G):
         if has('initial_recovereds'):
             out.append(('sets+recovered', dict(initial_infecteds=[nodes[0]], initial_recovereds=[nodes[-1], nodes[1]])))
         out.append(('single-node-list', dict(initial_infecteds=[nodes[1]])))
+        if not name_is_pure_ic(sig):
+            # the documented spelling "a single node": the bare node, not wrapped in a list
+            out.append(('single-node-bare', dict(initial_infecteds=nodes[1])))
     return out
 
 
@@ -59,7 +67,8 @@ def expected_row0(mode, kw, G, sir):
         return (N * (1 - r), N * r, 0)
     if mode == 'default':
         return (N - 1, 1, 0)
-    k = len(kw['initial_infecteds'])
+    ii = kw['initial_infecteds']
+    k = len(ii) if isinstance(ii, (list, tuple, set)) else 1
     r0 = len(kw.get('initial_recovereds') or [])
     return (N - k - r0, k, r0)
 
